@@ -422,7 +422,9 @@ impl C08 {
         }
         if matches!(kind, RunKind::Random) && t.chance(1, 4) {
             let bad = match t.choose(7) {
-                0 => Unit::Bad { what: "unknown-type", bytes: wire::header(v, *t.pick(&[0u8, 3, 4, 5, 7, 8, 9, 11, 12, 255]), 0, 8) },
+                // a PDU that is not a query, with any length field (the server
+                // has read its 8-octet header when it must answer)
+                0 => Unit::Bad { what: "unknown-type", bytes: wire::header(v, *t.pick(&[0u8, 3, 4, 5, 7, 8, 9, 11, 12, 255]), 0, *t.pick(&[8u32, 8, 0, 3, 7, 9, 12, 20, 1000, u32::MAX])) },
                 1 => {
                     let mut b = wire::header(v, wire::T_SERIAL_QUERY, cur.0, *t.pick(&[8u32, 11, 13, 16, 0]));
                     b.extend_from_slice(&cur.1.to_be_bytes());
